@@ -25,6 +25,8 @@ POOL_SRC = [
     # objects whose prototype chain is cyclic: through the object itself, and a cycle further up that does not contain it
     "(fn() do def o = <*k = 1*>; o->_proto_ = o; o end)()",
     "(fn() do def b = <*n = 1*>; def c = <*_proto_ = b*>; b->_proto_ = c; <*_proto_ = b, own = 2*> end)()",
+    # objects whose user-defined rendering member is not a function, does not return a string, or fails; an output stream
+    "<*_str_ = 5*>", "<*_str_ = fn(self) 5*>", "<*_str_ = fn(self) error 'inner'*>", "(fn() do require IO; IO->str_output() end)()",
 ]
 BIG = "9007199254740993"
 
@@ -253,6 +255,8 @@ def run(ctx):
                 for i in range(n):
                     for j in range(n):
                         items.append((f"{fexpr}(a, b)", {"a": i, "b": j}))
+                for i in range(n):
+                    items.append((f"{fexpr}(a, a)", {"a": i}))      # the SAME value in both places (append_all(l, l), union(s, s), …)
                 k3 = (n ** 3 if (ctx.thorough and not legacy and "->" not in fexpr) else (60 if ctx.thorough else 12))
                 if k3 >= n ** 3:
                     for i, j, k in itertools.product(range(n), repeat=3):
@@ -271,6 +275,8 @@ def run(ctx):
             for i in range(n):
                 for j in range(n):
                     forms.append((f, {"a": i, "b": j}))
+            for i in range(n):
+                forms.append((f.replace("b", "a") if " b" in f or "b)" in f or "[b" in f or "b]" in f else f, {"a": i}))
         for f in SYNTAX_FORMS_3:
             for i in range(n):
                 for j in range(n):
